@@ -8,7 +8,7 @@
     payload bytes and (a superset of) all valid-UTF-8 strings.  Library behaviour enters only as
     an explicit, pointwise hypothesis of the round-trip theorems. *)
 From WM Require Import Base.Prelude Message.Model Value.Model Value.Codec Value.Json Value.ToyCodec
-  Value.EqualsProofs Value.CodecProofs Value.StoreProofs Value.JsonProofs Value.ToyProofs.
+  Value.EqualsProofs Value.CodecProofs Value.StoreProofs Value.JsonProofs Value.ToyProofs Value.CrossProofs.
 
 (** * Equals *)
 
@@ -284,6 +284,51 @@ Theorem C16_toy_envelope_roundtrip : forall nu dest m, dest <> [] ->
   exists w, wrap toy_enc nu dest m = Ok w /\ unwrap toy_dec w = Ok (dest, m).
 Proof. exact toy_envelope_roundtrip. Qed.
 
+(** * Round "proofs": different marshalers on the two sides, and the message context *)
+
+(** forward compatibility: ProtoMarshaler writes, the gogo marshaler (fallback enabled) reads *)
+Theorem C16_cqrs_proto_then_gogo : forall V type_string gen_name cfg_uuid default_uuid is_msg venc vdec is_gogo gdec (v : V) m,
+  (forall b, venc v = Some b -> vdec (pl_bytes b) = Some v) ->
+  (forall b v', venc v = Some b -> gdec (pl_bytes b) = LOk v' -> v' = v) ->
+  proto_marshal V type_string gen_name cfg_uuid default_uuid is_msg venc v = Ok m ->
+  gogo_unmarshal V is_msg vdec is_gogo gdec false true m = Ok v.
+Proof. exact proto_then_gogo. Qed.
+
+(** backward compatibility: the gogo marshaler writes (either fallback setting), ProtoMarshaler reads *)
+Theorem C16_cqrs_gogo_then_proto : forall V type_string gen_name cfg_uuid default_uuid is_msg venc vdec is_gogo genc nofb (v : V) m,
+  is_msg = true ->
+  (forall b, venc v = Some b -> vdec (pl_bytes b) = Some v) ->
+  (forall b, genc v = LOk b -> vdec (pl_bytes b) = Some v) ->
+  gogo_marshal V type_string gen_name cfg_uuid default_uuid is_msg venc is_gogo genc nofb v = Ok m ->
+  proto_unmarshal V is_msg vdec m = Ok v.
+Proof. exact gogo_then_proto. Qed.
+
+(** gogo on both sides with different DisableStdProtoFallback: fine when gogo wrote the bytes, ... *)
+Theorem C16_cqrs_gogo_cross_config_partial : forall V type_string gen_name cfg_uuid default_uuid is_msg venc vdec is_gogo genc gdec
+    nofb_w nofb_r fixed (v : V) b,
+  is_gogo = true -> genc v = LOk b ->
+  (forall b, genc v = LOk b -> gdec (pl_bytes b) = LOk v) ->
+  exists m, gogo_marshal V type_string gen_name cfg_uuid default_uuid is_msg venc is_gogo genc nofb_w v = Ok m
+         /\ gogo_unmarshal V is_msg vdec is_gogo gdec nofb_r fixed m = Ok v.
+Proof. exact gogo_cross_config_gogo_bytes. Qed.
+
+(** ... refuted when the writer's fallback produced them and the reader has none *)
+Theorem C16_cqrs_gogo_cross_config_refuted :
+  exists (venc : unit -> option (option (list N))) (vdec : list N -> option unit)
+         (genc : unit -> lib (option (list N))) (gdec : list N -> lib unit) m,
+    (forall b, venc tt = Some b -> vdec (pl_bytes b) = Some tt)
+    /\ gogo_marshal unit (fun _ => []) None None [] true venc true genc false tt = Ok m
+    /\ gogo_unmarshal unit true vdec true gdec true true m = Err ELibPanic.
+Proof. exact gogo_cross_config_refuted. Qed.
+
+(** the envelope message carries the wrapped message's context, the unwrapped message the context
+    of the envelope message it is unwrapped from *)
+Theorem C16_envelope_context : forall jenc jdec nu dest m c c' w,
+  (forall b, jenc (env_of dest m) = Some b -> jdec b = Some (env_of dest m)) ->
+  wrap_c jenc nu dest (m, c) = Ok w ->
+  snd w = c /\ unwrap_c jdec (fst w, c') = Ok (dest, (m, c')).
+Proof. exact envelope_context. Qed.
+
 Print Assumptions C16_equals_iff.
 Print Assumptions C16_equals_iff_refuted.
 Print Assumptions C16_equals_symmetric_refuted.
@@ -323,6 +368,12 @@ Print Assumptions C16_json_invalid_utf8_roundtrip_refuted.
 Print Assumptions C16_envelope_roundtrip_invalid_utf8_refuted.
 Print Assumptions C16_codec_law_satisfiable.
 Print Assumptions C16_toy_envelope_roundtrip.
+
+Print Assumptions C16_cqrs_proto_then_gogo.
+Print Assumptions C16_cqrs_gogo_then_proto.
+Print Assumptions C16_cqrs_gogo_cross_config_partial.
+Print Assumptions C16_cqrs_gogo_cross_config_refuted.
+Print Assumptions C16_envelope_context.
 
 (** * Non-vacuity *)
 
